@@ -1,4 +1,5 @@
 import FcpptProofs.C11.Iter
+import FcpptProofs.C11.Members
 set_option linter.unusedSimpArgs false
 set_option linter.unusedVariables false
 /-!
@@ -94,6 +95,181 @@ theorem list_live_iff {σ : Store} {R : Rings} (rep : Rep σ R) (k : Nat) :
   · rintro ⟨l, hl⟩
     exact rep.live_of_mem (mem_nodes.2 ⟨_, members_mem hl, by simp⟩)
 
+
+
+/-! ## What each operation does to the member lists
+
+The sentence of the property — "a list contains exactly the live, not moved-from elements that were linked into it (or into
+a list it took over), in link order" — operation by operation, as equations between the member lists before and after
+(`j` ranges over **all** lists).  Together with `walk_eq_members` (iteration = `members`) these say what iteration
+yields after any history. -/
+
+/-- the abstract state of every valid history is well-formed (rings duplicate-free, pairwise disjoint, heads in front) -/
+theorem wf_history {R : Rings} (wf : Wf R) (ops : List Op) (hv : validRun R ops = true) : Wf (Spec.run R ops) := by
+  induction ops generalizing R with
+  | nil => exact wf
+  | cons op ops ih =>
+    simp only [validRun, Bool.and_eq_true] at hv
+    exact ih (Wf_step wf op hv.1) hv.2
+
+private theorem map_erase_head {R : Rings} (wf : Wf R) (j k : Nat) :
+    (members R j).map (fun l => l.erase (Node.head k)) = members R j := by
+  cases hm : members R j with
+  | none => rfl
+  | some l => simp [List.erase_of_not_mem (head_not_mem_members wf hm)]
+
+/-- `new list`: the new list is empty, no other list changes -/
+theorem members_newList (R : Rings) (k j : Nat) :
+    members (Spec.step R (.newList k)) j = if j = k then some [] else members R j := by
+  simp only [Spec.step, members_cons_single]
+  by_cases e : j = k
+  · subst e; simp
+  · have : Node.head k ≠ Node.head j := fun h => e (by cases h; rfl)
+    simp [e, this]
+
+/-- `new T(list_k)`: the new element is the last member of list `k`, no other list changes -/
+theorem members_newElem (R : Rings) (e k j : Nat) :
+    members (Spec.step R (.newElem e k)) j =
+      if j = k then (members R k).map (fun l => l ++ [Node.elem e]) else members R j :=
+  members_push R k _ j
+
+/-- `delete e`: the element leaves whatever list it was in; order of the others unchanged -/
+theorem members_delElem {R : Rings} (wf : Wf R) (e j : Nat) :
+    members (Spec.step R (.delElem e)) j = (members R j).map (fun l => l.erase (Node.elem e)) := by
+  simp [Spec.step, members_erase wf]
+
+/-- `e->unlink()`: the same, and the element stays alive outside every list -/
+theorem members_unlink {R : Rings} (wf : Wf R) (e j : Nat) :
+    members (Spec.step R (.unlink e)) j = (members R j).map (fun l => l.erase (Node.elem e)) ∧
+    Node.elem e ∈ nodes (Spec.step R (.unlink e)) := by
+  simp [Spec.step, members_cons_single, members_erase wf, nodes_cons]
+
+/-- `new T(std::move(*e))`: the new element takes the place of `e` in whatever list `e` was a member of (nothing changes
+if `e` was in none); the moved-from `e` is in no list afterwards -/
+theorem members_moveCtor {R : Rings} (wf : Wf R) {e' e : Nat} (hv : valid R (.moveCtor e' e) = true) (j : Nat) :
+    members (Spec.step R (.moveCtor e' e)) j = (members R j).map (fun l => l.map (subst (.elem e) (.elem e'))) ∧
+    ∀ l, members (Spec.step R (.moveCtor e' e)) j = some l → Node.elem e ∉ l := by
+  simp only [valid, Bool.and_eq_true, decide_eq_true_eq] at hv
+  have hne : e ≠ e' := fun h => hv.1 (h ▸ hv.2)
+  have key : members (Spec.step R (.moveCtor e' e)) j = (members R j).map (fun l => l.map (subst (.elem e) (.elem e'))) := by
+    simp only [Spec.step]
+    split
+    · rename_i ha
+      rw [members_cons_single, if_neg (by simp)]
+      cases hm : members R j with
+      | none => rfl
+      | some l => simp [map_subst_of_not_mem (not_mem_members_of_alone wf hv.2 ha hm)]
+    · rw [members_cons_single, if_neg (by simp), members_replace_elem wf hv.1]
+  refine ⟨key, fun l hl => ?_⟩
+  rw [key] at hl
+  cases hm : members R j with
+  | none => simp [hm] at hl
+  | some l0 =>
+    simp only [hm, Option.map_some, Option.some.injEq] at hl
+    subst hl
+    simp only [List.mem_map, not_exists, not_and]
+    intro x _ hx
+    by_cases h : x = Node.elem e
+    · simp [subst, h] at hx; exact hne hx.symm
+    · simp [subst, h] at hx
+
+/-- `*a = std::move(*b)`: `a` leaves its list and takes the place of `b` (self-assignment: nothing happens) -/
+theorem members_moveAssign {R : Rings} (wf : Wf R) {a b : Nat} (hv : valid R (.moveAssign a b) = true) (j : Nat) :
+    members (Spec.step R (.moveAssign a b)) j =
+      if b = a then members R j
+      else (members R j).map (fun l => (l.erase (.elem a)).map (subst (.elem b) (.elem a))) := by
+  simp only [valid, Bool.and_eq_true, decide_eq_true_eq] at hv
+  by_cases e : b = a
+  · simp [Spec.step, e]
+  · simp only [Spec.step, e, ite_false]
+    have hw : Node.elem a ∉ nodes (eraseNode R (.elem a)) := fun h => ((mem_nodes_erase wf).1 h).2 rfl
+    have hb : Node.elem b ∈ nodes (eraseNode R (.elem a)) :=
+      (mem_nodes_erase wf).2 ⟨hv.2, fun h => e (by cases h; rfl)⟩
+    split
+    · rename_i ha
+      rw [members_cons_single, if_neg (by simp), members_erase wf, if_neg (by simp)]
+      cases hm : members R j with
+      | none => rfl
+      | some l =>
+        have hm' : members (eraseNode R (.elem a)) j = some (l.erase (.elem a)) := by
+          rw [members_erase wf, if_neg (by simp), hm]; rfl
+        simp [map_subst_of_not_mem (not_mem_members_of_alone (Wf_erase wf _) hb ha hm')]
+    · rw [members_cons_single, if_neg (by simp), members_replace_elem (Wf_erase wf _) hw, members_erase wf,
+        if_neg (by simp)]
+      cases members R j <;> rfl
+
+/-- `new list(std::move(*k))`: the new list has the members of `k`, `k` is empty, no other list changes -/
+theorem members_listMoveCtor {R : Rings} (wf : Wf R) {k' k : Nat} (hv : valid R (.listMoveCtor k' k) = true) (j : Nat) :
+    members (Spec.step R (.listMoveCtor k' k)) j =
+      if j = k' then members R k else if j = k then some [] else members R j := by
+  simp only [valid, Bool.and_eq_true, decide_eq_true_eq] at hv
+  have hkk : k ≠ k' := fun h => hv.1 (h ▸ hv.2)
+  simp only [Spec.step]
+  split
+  · rename_i ha
+    have h0 := members_of_alone_head wf hv.2 ha
+    rw [members_cons_single]
+    by_cases e1 : j = k'
+    · subst e1; simp [h0]
+    · have : Node.head k' ≠ Node.head j := fun h => e1 (by cases h; rfl)
+      by_cases e2 : j = k
+      · subst e2; simp [e1, this, h0]
+      · simp [e1, e2, this]
+  · rw [members_cons_single, members_replace_head wf hv.1]
+    by_cases e2 : j = k
+    · subst e2; simp [hkk]
+    · have : Node.head k ≠ Node.head j := fun h => e2 (by cases h; rfl)
+      simp [e2, this]
+
+/-- `*k = std::move(*k2)` (`k ≠ k2`): `k` has the members of `k2`, `k2` is empty, no other list changes; the former members
+of `k` stay alive but are in no list any more -/
+theorem members_listMoveAssign {R : Rings} (wf : Wf R) {k k2 : Nat} (hv : valid R (.listMoveAssign k k2) = true)
+    (hne : k2 ≠ k) (j : Nat) :
+    members (Spec.step R (.listMoveAssign k k2)) j =
+      if j = k then members R k2 else if j = k2 then some [] else members R j := by
+  simp only [valid, Bool.and_eq_true, decide_eq_true_eq] at hv
+  have hw : Node.head k ∉ nodes (eraseNode R (.head k)) := fun h => ((mem_nodes_erase wf).1 h).2 rfl
+  simp only [Spec.step, hne, ite_false]
+  split
+  · rename_i ha
+    have h0 := members_of_alone_head wf hv.2 ha
+    rw [members_cons_single]
+    by_cases e1 : j = k
+    · subst e1; simp [h0]
+    · have : Node.head k ≠ Node.head j := fun h => e1 (by cases h; rfl)
+      rw [if_neg this, members_erase wf, if_neg this, map_erase_head wf]
+      by_cases e2 : j = k2
+      · subst e2; simp [e1, h0]
+      · simp [e1, e2]
+  · rw [members_cons_single]
+    by_cases e2 : j = k2
+    · subst e2; simp [hne]
+    · have : Node.head k2 ≠ Node.head j := fun h => e2 (by cases h; rfl)
+      rw [if_neg this, members_replace_head (Wf_erase wf _) hw]
+      have hk2 : Node.head k ≠ Node.head k2 := fun h => hne (by cases h; rfl)
+      by_cases e1 : j = k
+      · subst e1
+        simp only [ite_true]
+        rw [members_erase wf, if_neg hk2, map_erase_head wf]
+      · have : Node.head k ≠ Node.head j := fun h => e1 (by cases h; rfl)
+        simp only [e1, e2, ite_false]
+        rw [members_erase wf, if_neg this, map_erase_head wf]
+
+/-- `delete list k`: the list is gone, no other list changes (its former members stay alive, in no list) -/
+theorem members_delList {R : Rings} (wf : Wf R) (k j : Nat) :
+    members (Spec.step R (.delList k)) j = if j = k then none else members R j := by
+  simp only [Spec.step, members_erase wf]
+  by_cases e : j = k
+  · subst e; simp
+  · have : Node.head k ≠ Node.head j := fun h => e (by cases h; rfl)
+    simp [e, this, map_erase_head wf]
+
+/-- an element is a member of at most one list, at most once -/
+theorem member_of_one_list {R : Rings} (wf : Wf R) {j1 j2 : Nat} {l1 l2 : List Node} {n : Node}
+    (h1 : members R j1 = some l1) (h2 : members R j2 = some l2) (m1 : n ∈ l1) (m2 : n ∈ l2) : j1 = j2 ∧ l1.Nodup := by
+  have := wf.uniq _ (members_mem h1) _ (members_mem h2) n (by simp [m1]) (by simp [m2])
+  cases this
+  exact ⟨rfl, (List.nodup_cons.1 (wf.nodup _ (members_mem h1))).2⟩
 
 /-! ## Iterator objects (`intrusive/iterator_impl.hpp`) -/
 
